@@ -105,6 +105,12 @@ def run(ctx):
                       coverage=True)
         ctx.require_actions(res, "MC_C05", ["Len_", "Get_", "Index_", "Replace_", "Concat_", "ToRows_", "Write_", "Row_"])
         vectors += res.vectors
+    # a deeper run over the operations that change or look at columns: the same field assigned or replaced more than once with
+    # conversions to rows in between
+    res = ctx.tlc("MC_C05", tag="MC_C05_deep", spec="Spec",
+                  constants=dict(consts, MaxDepth=5 if quick else 6, Chunked=False, MaxPool=2, Sels=["tail"], Ops=["tolist", "get", "assign", "replace"]),
+                  invariants=invs, properties=["Frame"])
+    vectors += res.vectors
     r = core.run_tlc("MC_C05", ctx.work, tag="MC_C05_asbuilt", spec="Spec", expect_ok=False,
                      constants=dict(consts, MaxDepth=4, Chunked=False, AsBuilt=True), invariants=["Equivalent"])
     if not any("Equivalent is violated" in e for e in r.errors):
